@@ -15,6 +15,7 @@ import (
 	"hash/fnv"
 	"os"
 	"path/filepath"
+	"runtime/debug"
 	"sort"
 	"strconv"
 	"strings"
@@ -197,7 +198,28 @@ func main() {
 	fs.BoolVar(&c.verbose, "v", false, "verbose")
 	_ = fs.Parse(os.Args[2:])
 	c.open()
-	d.run(c)
+	func() {
+		// A library call that the driver relies on (and that must succeed on valid inputs) failed or panicked: this is an
+		// observation about the code under test, not a harness error.  It is logged as an event that every trace
+		// specification rejects, and the driver stops there.
+		defer func() {
+			if r := recover(); r != nil {
+				c.sticky = true
+				// (function names only: addresses and goroutine ids differ between runs and the event must reproduce)
+				var fns []string
+				for _, ln := range strings.Split(string(debug.Stack()), "\n") {
+					if !strings.HasPrefix(ln, "\t") && strings.Contains(ln, "secp256k1-voi") && len(fns) < 12 {
+						if i := strings.LastIndex(ln, "("); i > 0 {
+							ln = ln[:i]
+						}
+						fns = append(fns, ln)
+					}
+				}
+				c.E("lib.Unexpected", "driver", d.name, "what", fmt.Sprint(r), "where", fns)
+			}
+		}()
+		d.run(c)
+	}()
 	c.close()
 	fmt.Printf("HARNESS driver=%s events=%d dups=%d shards=%d seed=%d tier=%s\n", d.name, c.n, c.dups, c.shards, c.seed, c.tier)
 }
